@@ -141,6 +141,22 @@ RAW_SLOT_DOCS = [
     'SEC{status a\\\\b} 1 - h\n  P{class c\\\\d} text\n',
 ]
 
+def deep_docs():
+    """size thresholds: 24 levels of nesting (hierarchical elements, then a list in a quote, then a table), a line of 5 000 characters,
+    300 sibling paragraphs, an element with 12 attributes and 10 classes"""
+    kws = ['CHAP', 'PART', 'SEC', 'SUBSEC', 'PARA', 'SUBPARA', 'ARTICLE', 'CLAUSE', 'SUBCLAUSE', 'DIVISION', 'SUBDIVISION', 'RULE', 'SUBRULE',
+           'POINT', 'INDENT', 'ALINEA', 'LEVEL', 'LIST', 'SUBLIST', 'TITLE']
+    lines = [('  ' * i) + kw + ' %d - h%d' % (i + 1, i) for i, kw in enumerate(kws)]
+    d = len(kws)
+    lines += ['  ' * d + 'ITEMS', '  ' * (d + 1) + 'ITEM (a)', '  ' * (d + 2) + 'TABLE', '  ' * (d + 3) + 'TR', '  ' * (d + 4) + 'TC', '  ' * (d + 5) + 'the innermost cell',
+              '  ' * d + 'after the list']
+    deep = '\n'.join(lines) + '\n'
+    long_line = 'SEC 1\n  ' + ' '.join('word%d' % i for i in range(700)) + ' **bold** end\n'
+    many = 'SEC 1\n' + ''.join('  paragraph %d\n' % i for i in range(300))
+    attrs = 'SEC' + ''.join('.c%d' % i for i in range(10)) + '{' + '|'.join('%s v%d' % (a, i) for i, a in enumerate(
+        ['status', 'title', 'period', 'refersTo', 'alternativeTo', 'wId', 'GUID', 'evolvingId', 'style', 'lang'])) + '} 1 - h\n  x\n'
+    return [('act', deep), ('act', long_line), ('act', many), ('act', attrs)]
+
 def make(seed, root, depth):
     rng = random.Random(seed)
     return absdoc.Gen(rng, footnotes=True, attrs=True, max_depth=depth).document(root)
@@ -197,7 +213,7 @@ def search(ctx, budget):
         ctx.evaluations += 1; ctx.count('witness_' + r[0])
         if r[0] == 'bad':
             ctx.failures.append(({'stage': 'witness', 'family': fam, 'root': root, 'text': text}, r[1]))
-    kd = keyword_text_docs() + [(r, t) for t in FOOTNOTE_SHAPES + RAW_SLOT_DOCS for r in ('act', 'doc')]
+    kd = keyword_text_docs() + [(r, t) for t in FOOTNOTE_SHAPES + RAW_SLOT_DOCS for r in ('act', 'doc')] + deep_docs()
     for (root, text), r in zip(kd, impl.pmap(_wjob, kd, chunk=16)):
         ctx.evaluations += 1; ctx.count('keyword_text_' + r[0])
         if r[0] == 'bad':
